@@ -227,37 +227,77 @@ func normalise(mod []*packages.Package, fset *token.FileSet, known map[string]bo
 					abort[fn] = true
 					return true
 				}
-				// statement position
+				// statement position: the innermost enclosing statement that is a direct
+				// child of a block / case body
 				var stmt ast.Stmt
 				kind := ""
-				if i-1 >= 0 {
-					switch s := stack[i-1].(type) {
-					case *ast.ExprStmt:
-						stmt, kind = s, "expr"
-					case *ast.AssignStmt:
-						if len(s.Rhs) == 1 && s.Rhs[0] == ast.Expr(call) {
-							stmt = s
-							kind = "assign"
-							if s.Tok == token.DEFINE {
-								kind = "define"
-							} else if s.Tok != token.ASSIGN {
-								stmt = nil
-							}
-						}
-					case *ast.ReturnStmt:
-						if len(s.Results) == 1 && s.Results[0] == ast.Expr(call) {
-							stmt, kind = s, "return"
-						}
+				si := -1
+				for k := i - 1; k >= 0; k-- {
+					if st, ok := stack[k].(ast.Stmt); ok {
+						stmt, si = st, k
+						break
+					}
+					if _, isLit := stack[k].(*ast.FuncLit); isLit {
+						break
 					}
 				}
 				if stmt == nil {
 					abort[fn] = true
 					return true
 				}
+				direct := si == i-1 // the call is an operand of the statement itself
+				switch st := stmt.(type) {
+				case *ast.ExprStmt:
+					if direct && st.X == ast.Expr(call) {
+						kind = "expr"
+					} else {
+						kind = "hoist"
+					}
+				case *ast.AssignStmt:
+					switch {
+					case direct && len(st.Rhs) == 1 && st.Rhs[0] == ast.Expr(call) && st.Tok == token.DEFINE:
+						kind = "define"
+					case direct && len(st.Rhs) == 1 && st.Rhs[0] == ast.Expr(call) && st.Tok == token.ASSIGN:
+						kind = "assign"
+					default:
+						kind = "hoist"
+					}
+				case *ast.ReturnStmt:
+					if direct && len(st.Results) == 1 && st.Results[0] == ast.Expr(call) {
+						kind = "return"
+					} else {
+						kind = "hoist"
+					}
+				case *ast.IfStmt:
+					// only from the condition of the statement itself (not from its blocks: those have their own statements)
+					if st.Cond != nil && st.Cond.Pos() <= call.Pos() && call.End() <= st.Cond.End() {
+						kind = "hoist"
+					}
+				case *ast.IncDecStmt, *ast.SendStmt:
+					kind = "hoist"
+				}
+				if kind == "" {
+					abort[fn] = true
+					return true
+				}
+				// an if statement in an else-if position cannot be prefixed
+				if ifs, ok := stmt.(*ast.IfStmt); ok && si-1 >= 0 {
+					if par, ok := stack[si-1].(*ast.IfStmt); ok && par.Else == ast.Stmt(ifs) {
+						abort[fn] = true
+						return true
+					}
+				}
+				if kind == "hoist" {
+					// single result, and everything else the statement evaluates is free of calls
+					if fn.Type().(*types.Signature).Results().Len() != 1 || !restIsPure(info, stmt, call) {
+						abort[fn] = true
+						return true
+					}
+				}
 				// the statement must be a direct child of a block / case body (not an if/for/switch init)
 				okParent := false
-				if i-2 >= 0 {
-					switch par := stack[i-2].(type) {
+				if si-1 >= 0 {
+					switch par := stack[si-1].(type) {
 					case *ast.BlockStmt:
 						okParent = true
 					case *ast.CaseClause:
@@ -512,6 +552,14 @@ func normalise(mod []*packages.Package, fset *token.FileSet, known map[string]bo
 				}
 				for i, a := range s.call.Args {
 					pt := sig.Params().At(i)
+					// a parameter the body only reads, bound to a plain local variable of the caller
+					// with the same name: no copy is made, the body reads the caller's variable
+					if id, ok := a.(*ast.Ident); ok && pt.Name() == id.Name && readOnlyParam(info, cd.decl, pt) {
+						if v, ok := info.Uses[id].(*types.Var); ok && !v.IsField() && v.Parent() != p.Types.Scope() && types.Identical(v.Type(), pt.Type()) {
+							np++
+							continue
+						}
+					}
 					fmt.Fprintf(&pre, "var %s_a%d %s = %s; ", tag, np, types.TypeString(pt.Type(), qual), argText(a))
 					if pt.Name() != "" && pt.Name() != "_" {
 						fmt.Fprintf(&bind, "var %s %s = %s_a%d; _ = %s; ", pt.Name(), types.TypeString(pt.Type(), qual), tag, np, pt.Name())
@@ -611,6 +659,19 @@ func normalise(mod []*packages.Package, fset *token.FileSet, known map[string]bo
 					// blank identifiers on the left of := are legal only with at least one new name; keep as written
 				case "return":
 					tail = "return " + strings.Join(resNames, ", ") + " }"
+				case "hoist":
+					// { <block computing r0>; <statement with the call replaced by r0> }
+					text := out.String()
+					text = strings.Replace(text, resDecl.String(), "", 1)
+					if cd.lit {
+						text = strings.Replace(text, strings.Join(resNames, ", ")+" := func()", strings.Join(resNames, ", ")+" = func()", 1)
+					}
+					prefix := "{ " + resDecl.String() + text + "}; "
+					siteEdits[s.file] = append(siteEdits[s.file],
+						textEdit{off(s.stmt.Pos()), off(s.stmt.Pos()), prefix},
+						textEdit{off(s.call.Pos()), off(s.call.End()), resNames[0]},
+						textEdit{off(s.stmt.End()), off(s.stmt.End()), " }"})
+					continue
 				}
 				if !ok {
 					break
@@ -730,3 +791,127 @@ func isPtrTo(t, elem types.Type) bool {
 	p, ok := t.Underlying().(*types.Pointer)
 	return ok && types.Identical(p.Elem(), elem)
 }
+
+// restIsPure: apart from `call`, the expressions statement st evaluates itself
+// (not those of nested blocks) contain no calls other than conversions and the
+// builtins len / cap, no receives and no function literals - so evaluating
+// `call` before the statement does not reorder effects.
+func restIsPure(info *types.Info, st ast.Stmt, call *ast.CallExpr) bool {
+	var exprs []ast.Expr
+	switch x := st.(type) {
+	case *ast.ExprStmt:
+		exprs = []ast.Expr{x.X}
+	case *ast.AssignStmt:
+		exprs = append(append(exprs, x.Lhs...), x.Rhs...)
+	case *ast.ReturnStmt:
+		exprs = x.Results
+	case *ast.IfStmt:
+		if x.Init != nil {
+			return false
+		}
+		exprs = []ast.Expr{x.Cond}
+	case *ast.IncDecStmt:
+		exprs = []ast.Expr{x.X}
+	case *ast.SendStmt:
+		exprs = []ast.Expr{x.Chan, x.Value}
+	default:
+		return false
+	}
+	pure := true
+	for _, e := range exprs {
+		ast.Inspect(e, func(n ast.Node) bool {
+			switch y := n.(type) {
+			case *ast.CallExpr:
+				if y == call {
+					// its own arguments are evaluated at the same point either way
+					return false
+				}
+				if tv, ok := info.Types[y.Fun]; ok && tv.IsType() {
+					return true
+				}
+				if id, ok := y.Fun.(*ast.Ident); ok {
+					if b, ok := info.Uses[id].(*types.Builtin); ok && (b.Name() == "len" || b.Name() == "cap") {
+						return true
+					}
+				}
+				pure = false
+			case *ast.FuncLit:
+				pure = false
+				return false
+			case *ast.UnaryExpr:
+				if y.Op == token.ARROW {
+					pure = false
+				}
+			}
+			return true
+		})
+	}
+	return pure
+}
+
+// readOnlyParam: the body never assigns to the parameter, takes its address or
+// captures it in a function literal.
+func readOnlyParam(info *types.Info, fd *ast.FuncDecl, pv *types.Var) bool {
+	ok := true
+	isParam := func(e ast.Expr) bool {
+		id, isId := e.(*ast.Ident)
+		return isId && (info.Uses[id] == types.Object(pv) || info.Defs[id] == types.Object(pv))
+	}
+	ast.Inspect(fd.Body, func(n ast.Node) bool {
+		switch x := n.(type) {
+		case *ast.AssignStmt:
+			for _, l := range x.Lhs {
+				if isParam(l) {
+					ok = false
+				}
+				// a member of the parameter assigned through a selector
+				for e := l; ; {
+					if sel, isSel := e.(*ast.SelectorExpr); isSel {
+						e = sel.X
+						if isParam(e) {
+							ok = false
+						}
+						continue
+					}
+					if ix, isIx := e.(*ast.IndexExpr); isIx {
+						e = ix.X
+						continue
+					}
+					break
+				}
+			}
+		case *ast.IncDecStmt:
+			if isParam(x.X) {
+				ok = false
+			}
+		case *ast.UnaryExpr:
+			if x.Op == token.AND {
+				for e := x.X; ; {
+					if isParam(e) {
+						ok = false
+					}
+					if sel, isSel := e.(*ast.SelectorExpr); isSel {
+						e = sel.X
+						continue
+					}
+					break
+				}
+			}
+		case *ast.FuncLit:
+			ast.Inspect(x.Body, func(m ast.Node) bool {
+				if id, isId := m.(*ast.Ident); isId && info.Uses[id] == types.Object(pv) {
+					ok = false
+				}
+				return true
+			})
+			return false
+		case *ast.RangeStmt:
+			if x.Key != nil && isParam(x.Key) || x.Value != nil && isParam(x.Value) {
+				ok = false
+			}
+		}
+		return true
+	})
+	return ok
+}
+
